@@ -33,7 +33,7 @@ static void phys_deque(const char *name, int k, CC_Deque *d) {
     o("]");
 }
 
-/* L2 walkers: heap-level and API-consistency facts that must hold in every state */
+/* L2 walkers on private state only (no call into the library): heap-level facts of every state */
 static void walk_deque(CC_Deque *d) {
     size_t cap = d->capacity, n = d->size;
     if (block_size(d->buffer) < cap * sizeof(void *)) o(" WALK=buf-block-too-small");
@@ -41,6 +41,11 @@ static void walk_deque(CC_Deque *d) {
     if (n > cap) o(" WALK=size-gt-capacity");
     if (d->first >= cap || d->last >= cap) o(" WALK=first-or-last-out-of-range");
     else if (((d->first + n) & (cap - 1)) != d->last) o(" WALK=last-ne-first-plus-size");
+}
+/* API-consistency walkers: these call into the library, so they run only where the protocol allows a
+ * content sweep (normal mode, or the `observe` op of a sparse session) */
+static void walk_deque_api(CC_Deque *d) {
+    size_t cap = d->capacity, n = d->size;
     if (cc_deque_size(d) != n) o(" WALK=size-api");
     if (cc_deque_capacity(d) != cap) o(" WALK=capacity-api");
     if ((void *)cc_deque_get_buffer(d) != (void *)d->buffer) o(" WALK=get_buffer-api");
